@@ -118,13 +118,16 @@ package generator
 //@   modifies p.jobs
 
 // Persist hands OnFinished exactly one job per response item, in order, with that item's content; an item without
-// a name is an error before anything is spawned.
+// a name is an error before anything is spawned. The write callback it hands over, whenever it returns nil, has left
+// the file at its path argument holding exactly its content argument -- nothing of an older, longer file remains
+// (ghost file system of /verif/engine/stdfs.go).
 //@ func (g *Generator) Persist(res *plugin.Response) error
 //@   requires g != nil && res != nil && forall i int :: 0 <= i && i < len(res.Contents) ==> res.Contents[i] != nil
 //@   ensures (exists k int :: 0 <= k && k < len(res.Contents) && (res.Contents[k].Name == nil || *res.Contents[k].Name == "")) ==> result != nil
 //@   modifies *
 //@   loop 1 invariant p != nil && fresh(p) && len(p.jobs) == $i
 //@   loop 1 invariant forall k int :: 0 <= k && k < $i ==> res.Contents[k].Name != nil && *res.Contents[k].Name != "" && p.jobs[k].Content == res.Contents[k].Content
+//@   callback ensures result == nil ==> fswhole(path) && fsdata(path) == content
 //@   site call:p.OnFinished assert len(p.jobs) == len(res.Contents) && forall k int :: 0 <= k && k < len(res.Contents) ==> p.jobs[k].Content == res.Contents[k].Content
 
 // ---- Generate (properties C11, C04): parameters handed to backend and plugins, failures become error responses ----
